@@ -11,6 +11,7 @@ var units = map[string]common.UnitFunc{
 	"c04tiny":     unitC04tiny,
 	"c04twice":    unitC04twice,
 	"c04conc":     unitC04conc,
+	"c14scheme":   unitC14scheme,
 	"c03marker":   unitC03marker,
 	"c03conc":     unitC03conc,
 	"byzorch":     unitByzOrch,
